@@ -367,6 +367,13 @@ impl<'a> Ctx<'a> {
     // ---------------- patterns ----------------
     /// Visible constructors: (spelling here, qualifier, variant sig, adt decl)
     fn visible_ctors(&self) -> Vec<(String, Option<(String, usize)>, VariantSig, DeclId)> {
+        self.visible_ctors_in(false)
+    }
+
+    /// In a PATTERN the qualifier of `acc.Ctor(..)` names a module whatever locals of that
+    /// spelling are in scope (patterns have no field accesses), so shadowed accessors stay
+    /// usable there.
+    fn visible_ctors_in(&self, pattern: bool) -> Vec<(String, Option<(String, usize)>, VariantSig, DeclId)> {
         let mut out = Vec::new();
         for (name, d) in &self.sig().values {
             if self.decls[*d].kind == SymKind::Variant {
@@ -376,7 +383,7 @@ impl<'a> Ctx<'a> {
             }
         }
         for (acc, mi) in &self.sig().accessors {
-            if self.accessor_shadowed(acc) {
+            if !pattern && self.accessor_shadowed(acc) {
                 continue;
             }
             for a in self.sigs[*mi].adts.iter().filter(|a| a.public && !a.opaque) {
@@ -420,7 +427,7 @@ impl<'a> Ctx<'a> {
             },
             5 | 6 => {
                 // constructor pattern
-                let ctors = self.visible_ctors();
+                let ctors = self.visible_ctors_in(true);
                 if ctors.is_empty() {
                     return Pattern::Discard("_".into());
                 }
@@ -439,7 +446,8 @@ impl<'a> Ctx<'a> {
                     args.push((label, self.gen_pattern(depth.saturating_sub(1), kind, taken, binds)));
                 }
                 let has_parens = !v.fields.is_empty();
-                let module = qual.map(|(acc, mi)| Ident { text: acc, bind: Bind::Module { module: mi, core: false }, site: "pattern-qualifier" });
+                let shadowed = qual.as_ref().map(|(acc, _)| self.accessor_shadowed(acc)).unwrap_or(false);
+                let module = qual.map(|(acc, mi)| Ident { text: acc, bind: Bind::Module { module: mi, core: false }, site: if shadowed { "pattern-qualifier-spelled-like-a-local" } else { "pattern-qualifier" } });
                 let site = if module.is_some() { "pattern-ctor-qualified" } else { "pattern-ctor" };
                 Pattern::Ctor { module, name: Ident::use_(name, Some(v.decl), true, site), args, spread: use_spread, has_parens }
             }
